@@ -382,6 +382,10 @@ def pin_xsync_Group_spawn : List String := ["func (r *Group) spawn(p0 func())",
   "r.wg.Done()",
   "}"]
 
+/-- `jitterDuration` in `xsync`: signature and full statement list, locals renamed positionally -/
+def pin_xsync_jitterDuration : List String := ["func jitterDuration(p0 time.Duration, p1 time.Duration) time.Duration",
+  "return p0 + time.Duration(float64(p1)*((rand.Float64()*2)-1))"]
+
 /-- type `mapIterator` of `parallel`: one line per field / method -/
 def pin_parallel_type_mapIterator : List String := ["type mapIterator[U any] struct",
   "ch chan valueAndIndex[U]",
